@@ -70,6 +70,12 @@ def _norm_key(k):
 
 
 def run(sim):
+    # process-global mutable state (header-name cache) must not leak between runs in a warm worker
+    try:
+        from twisted.web import http_headers as _hh
+        _hh._nameEncoder._canonicalHeaderCache.clear()
+    except AttributeError:
+        pass
     family = sim.draw_weighted([("a", 5), ("b", 7), ("c", 2), ("e", 1)], "family")
     # 1 run out of 12 keeps delivering after the server's close request (precondition of the known after-close-delivery defect)
     after_close = sim.draw_choice([False] * 11 + [True], "deliver-after-close")
